@@ -22,6 +22,72 @@ def matP : P (List (List (Nat × Rat))) := listOf rowP
 def showVecs (tag : String) (vs : List (List Rat)) : String :=
   " ".intercalate (tag :: vs.map showRatsL)
 
+/-! ### composite vector kinds (fixed C++ types in the harness): trees of leaves `(block size, mirror slot)` -/
+
+inductive KTree where
+  | leaf (bs slot : Nat)
+  | pair (a b : KTree)
+
+open KTree in
+def kindTree : String → Option KTree
+  -- TupleVector<DV, DVB2> / TupleMirror<VM, VM>
+  | "t2" => some (pair (leaf 1 0) (leaf 2 1))
+  -- TupleVector<DVB2, DV, DVB3>
+  | "t3" => some (pair (leaf 2 0) (pair (leaf 1 1) (leaf 3 2)))
+  -- TupleVector<DV, DVB2, DV, DV>
+  | "t4" => some (pair (leaf 1 0) (pair (leaf 2 1) (pair (leaf 1 2) (leaf 1 3))))
+  -- PowerVector<DV, 3> / PowerMirror<VM, 3>: one sub-mirror for all three components
+  | "p3" => some (pair (leaf 1 0) (pair (leaf 1 0) (leaf 1 0)))
+  -- TupleVector<PowerVector<DVB2, 2>, TupleVector<DV, DVB3>, DV> / TupleMirror<PowerMirror<VM, 2>, TupleMirror<VM, VM>, VM>
+  | "nest" => some (pair (pair (leaf 2 0) (leaf 2 0)) (pair (pair (leaf 1 1) (leaf 3 2)) (leaf 1 3)))
+  | _ => none
+
+def KTree.leafList : KTree → List (Nat × Nat)
+  | .leaf bs slot => [(bs, slot)]
+  | .pair a b => a.leafList ++ b.leafList
+
+def KTree.mir (slots : List (List Nat)) : KTree → CMir
+  | .leaf _ slot => .leaf (slots.getD slot [])
+  | .pair a b => .pair (a.mir slots) (b.mir slots)
+
+/-- build the vector from the leaf data in order; returns the unused leaves -/
+def KTree.vec : KTree → List (List Rat) → CVec Rat × List (List Rat)
+  | .leaf bs _, ls => (.leaf bs (ls.headD []), ls.tail)
+  | .pair a b, ls =>
+    let (x, r1) := a.vec ls
+    let (y, r2) := b.vec r1
+    (.pair x y, r2)
+
+def KTree.tmpl (sizes : List Nat) : KTree → CVec Rat
+  | .leaf bs slot => .leaf bs (List.replicate (sizes.getD slot 0 * bs) 0)
+  | .pair a b => .pair (a.tmpl sizes) (b.tmpl sizes)
+
+def showLeaves (tag : String) (vs : List (CVec Rat)) : String :=
+  " ".intercalate (tag :: (vs.flatMap CVec.leaves).map showRatsL)
+
+/-- `P S [G_s] [maps r s] [nbrs]` → per patch (slot sizes, neighbours with one index list per slot) -/
+def cdecompP (k : KTree) : P (List (CPatch Rat)) := do
+  let np ← nat
+  let ns ← nat
+  let _gs ← many ns nat
+  let maps ← many np (many ns natList)
+  let nbrs ← many np (listOf (do let r ← nat; let ms ← many ns natList; pure (r, ms)))
+  pure ((maps.zip nbrs).map fun (m, nb) =>
+    { tmpl := k.tmpl (m.map List.length), nbrs := nb.map fun (r, ms) => (r, k.mir ms) })
+
+def cvecsP (k : KTree) (np : Nat) : P (List (CVec Rat)) :=
+  many np (do let ls ← many k.leafList.length ratList; pure (k.vec ls).1)
+
+/-- `C S [N_s] [child c: per slot: n pm cm]` -/
+def cmuxP (k : KTree) : P (CVec Rat × List (CVec Rat) × List CMir × List CMir) := do
+  let nc ← nat
+  let ns ← nat
+  let psizes ← many ns nat
+  let ch ← many nc (many ns (do let n ← nat; let pm ← natList; let cm ← natList; pure (n, pm, cm)))
+  pure (k.tmpl psizes, ch.map (fun c => k.tmpl (c.map (·.1))), ch.map (fun c => k.mir (c.map (·.2.1))),
+    ch.map (fun c => k.mir (c.map (·.2.2))))
+
+
 def handle : P String := do
   let op ← tok
   match op with
@@ -57,6 +123,40 @@ def handle : P String := do
     match mirrorScatter bs size mir v buf alpha boff with
     | some b => pure s!"B {showRatsL b}"
     | none => pure "ABORT"
+  | "csync0" | "csync1" =>
+    let kn ← tok
+    match kindTree kn with
+    | none => throw s!"unknown kind {kn}"
+    | some k =>
+      let ps ← cdecompP k
+      let ords ← many ps.length natList
+      let vs ← cvecsP k ps.length
+      if !cexchangeOk ps then pure "DEADLOCK" else
+      pure (showLeaves "V" (if op == "csync0" then csync0 ps ords vs else csync1 ps ords vs))
+  | "cdot" =>
+    let kn ← tok
+    match kindTree kn with
+    | none => throw s!"unknown kind {kn}"
+    | some k =>
+      let ps ← cdecompP k
+      let xs ← cvecsP k ps.length
+      let ys ← cvecsP k ps.length
+      pure s!"D {showRat (cgdot ps xs ys)}"
+  | "cmuxjoin" | "cmuxsplit" =>
+    let kn ← tok
+    match kindTree kn with
+    | none => throw s!"unknown kind {kn}"
+    | some k =>
+      let (ptmpl, ctmpls, pm, cm) ← cmuxP k
+      -- Muxer::compile: buffer size = largest child mirror buffer; must not be smaller than a parent mirror buffer
+      let b := muxBufSize cm ptmpl
+      if ((List.range cm.length).any fun c => b < (pm.getD c default).bufSize (ctmpls.getD c default)) then pure "ABORT" else
+      if op == "cmuxjoin" then
+        let srcs ← cvecsP k cm.length
+        pure (showLeaves "V" [muxJoin b pm cm srcs ptmpl])
+      else
+        let src ← cvecsP k 1
+        pure (showLeaves "V" (muxSplit b pm cm (src.headD default) ctmpls))
   | _ => throw s!"unknown op {op}"
 
 def step (ts : Toks) : String :=
